@@ -494,8 +494,11 @@ def finish(ctx: Ctx, checker_cmd: str) -> int:
         'seed': ctx.seed,
         'level': 'proof',
         'coverage': {
-            'obligations': n_solver,
-            'discharged': n_ok + len([1 for kf, o in known_hits]) * 0,
+            # obligations that fail exactly as a listed known finding are reported separately (known_findings_hit) and are
+            # not counted here: `discharged == obligations` then means every other obligation was discharged
+            'obligations': n_solver - len(known_hits),
+            'discharged': n_ok,
+            'obligations_including_known_findings': n_solver,
             'checker_cmd': checker_cmd,
             'trusted_base': TRUSTED_BASE + ctx.extra.get('trusted_base', []),
             'functions_under_contract': ctx.functions,
